@@ -368,7 +368,9 @@ func c04Run(r *core.Run) {
 					}
 				}
 			} else {
-				q.Peer = core.Pick(t, "peer", "192.0.2.9:1234", "11.0.0.1:80", "172.16.0.3:4000")
+				// (a process on the server's own host is a peer like any other unless
+				// its address is configured as a trusted proxy)
+				q.Peer = core.Pick(t, "peer", "192.0.2.9:1234", "11.0.0.1:80", "172.16.0.3:4000", "127.0.0.1:51234", "[::1]:51234", "127.8.8.8:80")
 				if proxyMode == "one" && t.Chance(1, 2, "peer-near-proxy") {
 					// only 10.0.0.1 itself is trusted: its neighbours are not
 					q.Peer = core.Pick(t, "near-peer", "10.0.0.2:777", "10.200.3.4:999", "10.0.1.1:80")
@@ -403,6 +405,9 @@ func c04Run(r *core.Run) {
 
 			// --- reference: who is calling, from where ---
 			effIdent, effIP := q.TLS, strings.Split(q.Peer, ":")[0]
+			if host, _, err := net.SplitHostPort(q.Peer); err == nil {
+				effIP = host // (IPv6 peers are written [addr]:port)
+			}
 			if viaProxy {
 				effIdent = q.SCC
 				hops := strings.Split(strings.Join(q.XFF, ","), ",")
